@@ -331,7 +331,7 @@ def run(ctx, rep, tier="quick"):
     tmv = vars_assigned_from(d, lambda v: isinstance(v, ast.Attribute) and v.attr == "metric_val")
     cmpn = [x for x in walk_shallow(d.node) if isinstance(x, ast.Compare) and any(isinstance(y, ast.Name) and y.id in sgv for y in ast.walk(x))]
     ok = len(cmpn) == 1 and len(sgv) == 1 and len(tmv) == 1 and \
-        U(cmpn[0]).replace(" ", "") == f"{sgv[0]}*(metric_val-{tmv[0]})>=0"
+        U(parity.oriented(cmpn[0], "0") or cmpn[0]).replace(" ", "") == f"{sgv[0]}*(metric_val-{tmv[0]})>=0"
     rep.put(ok, "S2", "parity", "DEHB._selection: sign * (new - target) >= 0 keeps the target (NORM comparison)", d, cmpn[0] if cmpn else None, "")
     q = P.method("PopulationBasedTraining", "_quantiles")
     srt = [x for x in walk_shallow(q.node) if isinstance(x, ast.Call) and fn_name(x) == "sort"]
